@@ -123,6 +123,28 @@ async def check_stop(case, rec):
     if extra:
         raise Violation("C18:unknown-job", f"jobs not in the reference DAG were executed: {sorted(extra)}")
     anc = {j: shape.ancestors(j) for j in jobs}
+    # every execution inside a recovery workflow is attributed to the failure that built that workflow:
+    # the job must be the failed job itself or one of its provenance ancestors with unavailable data
+    by_rid = {e["rid"]: e for e in view.recoveries}
+    for e in res.run.events:
+        if e["ev"] != "start" or e["wf"] == res.wf.persistent_id:
+            continue
+        rid = res.run.wf_rid.get(e["wf"])
+        if rid is None or rid not in by_rid:
+            raise Violation("C18:harness", f"start of {e['job']} in workflow {e['wf']} that no recover() call built")
+        failed = by_rid[rid]["job"]
+        if e["job"] == failed:
+            continue
+        if e["job"] not in anc.get(failed, set()):
+            raise Violation(
+                "C18:re-executed-job-is-not-an-ancestor-of-the-failed-job",
+                f"{e['job']} was executed by the recovery of {failed} (failed step {by_rid[rid]['step']}); plan {plan}; starts {view.starts}",
+            )
+        if e["job"] not in view.unavailable(rid):
+            raise Violation(
+                "C18:re-executed-although-outputs-available",
+                f"{e['job']} was executed by the recovery of {failed} although all its output instances were on disk during that recovery; plan {plan}",
+            )
     for job in jobs:
         got = view.starts.get(job, 0)
         if got < 1:
